@@ -24,7 +24,11 @@ META = {
 }
 GROUP = "ctc"
 REQ = "From RV Require Import Prelude.\nFrom Ctc Require Import ModelCtc.\nOpen Scope N_scope."
-THEOREMS = []
+THEOREMS = ["C39_greedy_is_collapsed_argmax", "C39_greedy_positions_first", "C39_argmax_last_max",
+            "C39_beam_step_keeps_prefixes_distinct", "C39_beam_prefixes_distinct", "C39_beam_scores_nonzero",
+            "C39_beam_score_le_exact", "C39_beam_exact_when_unpruned", "C39_beam_complete_when_unpruned",
+            "C39_exact_is_alignment_sum", "C39_forward_recursion_is_exact",
+            "C39_beam_prefixes_distinct_refuted", "C39_oracle_greedy_sound", "C39_oracle_beam_sound", "C39_nonvacuous"]
 
 
 def classify(c):
@@ -41,14 +45,14 @@ def main(ctx):
     ctx.assumptions += ["beam_size >= 1 and n_labels >= 1 (the implementation indexes out of bounds otherwise)",
                         "inputs are log-probabilities (no NaN, no +inf, entries <= 0)"]
     ctx.audit(GROUP)
-    failed = ctx.prove(GROUP, "Props_C39", THEOREMS) if THEOREMS else []
+    failed = ctx.prove(GROUP, "Props_C39", THEOREMS)
     bindir = ctx.harness(GROUP, profile="release", bins=["c39"])
-    cases = ctx.gen_exec(bindir, "c39", ctx.n(2500, 40000), inputs=ctx.replay_inputs())
+    cases = ctx.gen_exec(bindir, "c39", ctx.n(2500, 30000), inputs=ctx.replay_inputs())
     ctx.correspond("CtcDecoder", GROUP, REQ, cases, classify=classify, show="show", shard=250,
                    fn_name="Ctc.ModelCtc.{greedy_steps,decode_beam_nbest}")
     # informational: how many cases had their beam comparison skipped (ranking gap below the margin)
     # and how many ran unpruned (the 'scores are exact' clause applied)
-    sub = cases if len(cases) <= 6000 else cases[:6000]
+    sub = cases[-ctx.n(750, 3000):]
     nd, nu, err = ctx.coq_eval_cases(GROUP, REQ, [c["term"] for c in sub], "is_decisive", "is_unpruned", 250, tag="info")
     if not err:
         ctx.extra["beam_comparison_skipped_for_ranking_gap"] = {"of": len(sub), "skipped": len(nd)}
